@@ -89,7 +89,7 @@ func vcHookRun(t *testing.T, sc vcRunScenario) (handled []string, runs [][]strin
 	q.Start()
 	select {
 	case <-doneCh:
-	case <-time.After(20 * time.Second):
+	case <-time.After(45 * time.Second):
 		handled = append(handled, "TIMEOUT")
 	}
 	op.TaskQueues.Stop()
